@@ -65,8 +65,21 @@ pub fn reconcile_aliases(crate_parsed_data: &mut BTreeMap<CrateName, ParsedData>
             .consts
             .sort_by(|a, b| a.id.original.cmp(&b.id.original));
 
-        // put back our import types for file generation.
-        parsed_data.import_types = import_types;
+        // put back our import types for file generation. An import names the Rust
+        // identifier while the crate it comes from defines the type under its
+        // serde name: the import has to follow the rename as the references did.
+        parsed_data.import_types = import_types
+            .into_iter()
+            .map(|mut import| {
+                if let Some(renamed) = serde_renamed
+                    .get(&import.type_name)
+                    .and_then(|by_crate| by_crate.get(&import.base_crate))
+                {
+                    import.type_name = renamed.clone();
+                }
+                import
+            })
+            .collect();
     }
 }
 
